@@ -760,9 +760,8 @@ def P_C06 (attr : Toks) (item : Item) (view : View) : Bool :=
             (match im.preds.head? with
              | some (.ty [] bounded (first :: extras) false) =>
                  bounded == entraitTTy && first == provider &&
-                 -- `Send` only in the listed finding class (async trait delegated by reference)
-                 extras.all (fun e => fixedExtras.contains e ||
-                   (e == sendToks && t.containsAsync && (match a.delegation with | some (.byRef _) => true | _ => false)))
+                 -- nothing beyond the fixed requirements (in particular no `Send`)
+                 extras.all (fun e => fixedExtras.contains e)
              | _ => false)
       | _, _ => false
   | _ => true
@@ -816,7 +815,7 @@ def dynWherePredOk (b : Bool) (it : String) (t : TraitItem) (q : Option WherePre
   | some (.ty [] bounded (first :: extras) false) =>
       bounded == entraitTTy &&
       first == (if b then borrowPath else asRefPath) ++ [p '<'] ++ dynTarget it t.containsAsync ++ [p '>'] &&
-      extras.all (fun e => fixedExtras.contains e || (e == sendToks && t.containsAsync))
+      extras.all (fun e => fixedExtras.contains e)
   | _ => false
 
 /-- trait side of dependency inversion -/
